@@ -17,6 +17,7 @@ Definition tInput (t : Tree) : cinput :=
   | 4%Z => InRowArrays (tLLZ (tnth t 1))
   | 5%Z => InRowDicts (map tEntries (tL (tnth t 1)))
   | 6%Z => InSparseRows (map (fun r => (tN (tnth r 0), map tCV (tL (tnth r 1)))) (tL (tnth t 1)))
+  | 8%Z => InDokRows (map (fun r => (tN (tnth r 0), map tCV (tL (tnth r 1)))) (tL (tnth t 1)))
   | _ => InSparse (tN (tnth t 1)) (tN (tnth t 2)) (tEntries (tnth t 3))
   end.
 
